@@ -86,6 +86,23 @@ def generate(rng, tier):
         if rng.random() < 0.5:
             cases.append(dict(kind="complex", field=f, ax=rng.randrange(nd),
                               axes=(rng.sample(range(nd), rng.randint(2, nd)) if nd >= 2 else None)))
+    # larger arrays: strategies that switch with size (block-wise summation, chunked loops); values stay dyadic,
+    # so every sum is exact
+    # (the Coq model indexes lists, so a shard costs O(cells^2): sizes are kept to a few hundred cells)
+    for sh in ([129], [257], [130, 2], [2, 131], [2, 2, 65]) if tier == "quick" else \
+            ([129], [257], [513], [130, 2], [2, 131], [2, 2, 65], [17, 17], [9, 9, 5], [3, 2, 2, 33]):
+        f = gen_field(rng, nd=len(sh))
+        f["sh"] = list(sh)
+        f["vals"] = [g.qs(F(rng.randint(-50, 50), rng.choice([1, 2, 4]))) for _ in range(math.prod(sh) * f["nvdim"])]
+        if f["dtype"] == "int":
+            f["vals"] = [g.qs(F(int(F(v)))) for v in f["vals"]]
+        f["valid"] = [rng.random() >= 0.2 for _ in range(math.prod(sh))]
+        big = max(range(len(sh)), key=lambda a: sh[a])
+        cases.append(dict(kind="all", field=f))
+        cases.append(dict(kind="dir", field=f, ax=big))
+        cases.append(dict(kind="cum", field=f, ax=big))
+        cases.append(dict(kind="mean_dir", field=f, ax=big))
+        cases.append(dict(kind="mean_all", field=f))
     return cases
 
 
